@@ -99,6 +99,58 @@ PROPERTIES = {
                      "floats as exact complex numbers"],
         explanation="operator identities proved as equalities of normal forms in a typed non-commutative *-algebra",
     ),
+    "C04": dict(
+        engines="N",
+        claim="orth and orth_unocc (real code, real decorators) on symbolic matrices of symbolic size: Y^H O Y = 1, idempotence, span "
+              "preservation (Y sqrtm(U) = W), D^H O D = 1 and D^H O Y_occ = 0, for every k-point and spin channel. Density / kinetic-energy-"
+              "density clauses (non-negativity, integrals) are not covered by this check.",
+        note="sqrtm / inv are assumed contracts (principal root of a Hermitian positive matrix); conditioning in floating point is out of scope",
+        explanation="normal-form equality in a typed non-commutative *-algebra with the sqrtm/inv contracts as oriented rewrite rules",
+        modules=["contracts.c04_c05_c01_c11"],
+        level="proof",
+        trusted_base=BASE_TRUST + ["in-house non-commutative normaliser (engine N)"],
+        assumptions=["assumed contracts of sqrtm / inv / fft (listed per obligation)", "floats as exact complex numbers",
+                     "the symbolic Atoms/SCF state is the state contract of Atoms.build / SCF (Gk2c, active, Omega, real Vloc, symmetric h)"],
+    ),
+    "C05": dict(
+        engines="N",
+        claim="The real H (kinetic + local + GTH non-local, LDA-type real potentials) is additive, homogeneous and Hermitian on the cut-off "
+              "basis of every k-point and spin channel for symbolic sizes; get_Eband is the k-weighted trace of the subspace Hamiltonian. "
+              "GGA gradient correction (real Veff on even grids), tau term, eigenvalue ordering, Ritz bound and DOS are not covered here.",
+        note="FFT by contract; Hermiticity needs real Vloc/vxc/phi_r and symmetric h (pre-conditions, the latter is the read_gth post-condition); "
+             "canary: asymmetric h must not be provably Hermitian",
+        explanation="<a|Hb> - <Ha|b> normalises to 0 in the operator algebra",
+        modules=["contracts.c04_c05_c01_c11"],
+        level="proof",
+        trusted_base=BASE_TRUST + ["in-house non-commutative normaliser (engine N)"],
+        assumptions=["assumed contracts of sqrtm / inv / fft (listed per obligation)", "floats as exact complex numbers",
+                     "the symbolic Atoms/SCF state is the state contract of Atoms.build / SCF (Gk2c, active, Omega, real Vloc, symmetric h)"],
+    ),
+    "C01": dict(
+        engines="N",
+        claim="Structural clauses of the gradient: for constant fillings W^H get_grad(W) = 0 (orthogonality to the span) and get_grad is "
+              "proportional to f wk, proved on the real get_grad with H and Q taken by contract (Hermitian linear map; linear map). The "
+              "derivative relation slope = 2 Re<grad, D> for the non-linear total energy is NOT proved (only evaluated natively on replay).",
+        note="H by its C05 contract, Q by linearity; sqrtm/inv contracts; the chain-rule composition to the total energy is outside",
+        explanation="normal-form equality in the operator algebra",
+        modules=["contracts.c04_c05_c01_c11"],
+        level="proof",
+        trusted_base=BASE_TRUST + ["in-house non-commutative normaliser (engine N)"],
+        assumptions=["assumed contracts of sqrtm / inv / fft (listed per obligation)", "floats as exact complex numbers",
+                     "the symbolic Atoms/SCF state is the state contract of Atoms.build / SCF (Gk2c, active, Omega, real Vloc, symmetric h)"],
+    ),
+    "C11": dict(
+        engines="N",
+        claim="get_phi: L(phi) = -4 pi O J (n - mean n), zero mean, linear, |G|^2 phi_G = 4 pi n_G (every G != 0, hence every single cosine); "
+              "get_Ecoul = 1/2 <n, phi_r> = (2 pi Omega/N^2) sum_{G != 0} |n_G|^2/|G|^2 (non-negative, quadratic) - for symbolic grid and cell.",
+        note="FFT by contract; |G|^2 enters as a diagonal operator that is singular exactly at index 0 (index-matrix contract)",
+        explanation="normal-form equality in the operator algebra (pseudo-inverse of |G|^2 with an explicit INF term that the code must remove)",
+        modules=["contracts.c04_c05_c01_c11"],
+        level="proof",
+        trusted_base=BASE_TRUST + ["in-house non-commutative normaliser (engine N)"],
+        assumptions=["assumed contracts of sqrtm / inv / fft (listed per obligation)", "floats as exact complex numbers",
+                     "the symbolic Atoms/SCF state is the state contract of Atoms.build / SCF (Gk2c, active, Omega, real Vloc, symmetric h)"],
+    ),
 }
 
 
